@@ -74,8 +74,8 @@
 (*   of both halves), Split:re-eval (the halves at 1/2), Transpose:swap,    *)
 (*   CurveTranspose:swap, InverseX:inverse / EvalX:value (strictly monotone *)
 (*   control x), CurveInverseX:inverse (strictly monotone control y),       *)
-(*   Length:straight (control points in order on one line of integer
-(*   length: the chord, within 1e-6)       *)
+(*   Length:straight (control points in order on one line of integer        *)
+(*   length: Length(1e-6, 0) is the chord within 1e-6)                      *)
 (* fam "polyline": [site, moves, scale, pts, exact]                         *)
 (*   arc-point:interior / arc-point:other - SegmentCurve.Eval(a/L) is the   *)
 (*   point at arc length a (interior: strictly inside a segment that is not *)
